@@ -27,6 +27,7 @@ def run_catalogue(prop, only=None, verbose=True):
             ck = check.Checker(prop, 'quick', 0)
             ck.no_retry = True
             ck.generate()
+            ck.effects()
             ck.discharge()
             failed = []
             groups = {}
